@@ -50,23 +50,9 @@ let rec parse_points toks = match toks with
   | _ -> []
 
 (* directory links of the case (dirlink TARGET LINK) and the file a name denotes for the operating system:
-   components are followed one by one, ".." leaves the directory the link points to *)
+   the extracted [phys_name] (Model/Path.v) -- links first, then ".." *)
 let dirlinks : (string, string) Hashtbl.t = Hashtbl.create 4
 let () = case_hooks := (fun () -> Hashtbl.reset dirlinks) :: !case_hooks
-let phys_name (name : string) : string =
-  let cur = ref [] in
-  List.iter (fun c ->
-      if c = "" || c = "." then ()
-      else if c = ".." then (match !cur with _ :: r -> cur := r | [] -> ())
-      else begin
-        cur := c :: !cur;
-        let p = String.concat "/" (List.rev !cur) in
-        match Hashtbl.find_opt dirlinks p with
-        | Some t -> cur := List.rev (List.filter (fun x -> x <> "" && x <> ".") (String.split_on_char '/' t))
-        | None -> ()
-      end) (String.split_on_char '/' name);
-  String.concat "/" (List.rev !cur)
-
 let with_file op name f = match get_file name with
   | None -> obs "%s nofile" op
   | Some h -> f h
